@@ -1330,21 +1330,65 @@ fn c13_wrap(sim: &mut Sim, d: &Delivery) -> u64 {
 }
 
 fn c17(sim: &mut Sim, d: &Delivery) -> u64 {
-    // The same oracles as C04/C05/C09/C10/C13, evaluated in whichever feature configuration
-    // this binary was built with; the model knows the configuration (ModelCfg).
-    let base = fork(&sim.parsers[d.p]);
+    // (a) The same simulated runs are executed by two binaries, built with and without the
+    // feature; what the library returns, re-exports and projects is folded into the run digest
+    // here and compared across the two builds by the orchestrator for runs whose templates hold
+    // only fields the library knows. (b) below is judged against the model in the off build.
     let Some(r) = primary(sim, "C17", d) else { return 3 };
     let post = snap(&sim.parsers[d.p]);
     let w = model_step(sim, d, &post);
-    for version in [9u16, 10] {
-        let rep = compare_decode(sim, "C17", version, d, &w, &r);
-        sim.stats.oracle_evals += rep.sets_checked;
-        if rep.records_checked > 0 {
-            sim.stats.nontrivial = true;
+    let mut dg = crate::rng::Digest::default();
+    dg.bytes(&sim.last_outcome);
+    for el in &r {
+        let exported: Option<Result<Vec<u8>, String>> = std::panic::catch_unwind(std::panic::AssertUnwindSafe(|| match el {
+            NetflowPacket::V9(x) => Some(x.to_be_bytes().map_err(|e| e.to_string())),
+            NetflowPacket::IPFix(x) => Some(x.to_be_bytes().map_err(|e| e.to_string())),
+            NetflowPacket::V5(x) => Some(Ok(x.to_be_bytes())),
+            NetflowPacket::V7(x) => Some(Ok(x.to_be_bytes())),
+            NetflowPacket::Error(_) => None,
+        }))
+        .unwrap_or(Some(Err("panic".into())));
+        match exported {
+            Some(Ok(b)) => dg.bytes(&b),
+            Some(Err(e)) => dg.str(&e),
+            None => dg.str("-"),
+        }
+        match std::panic::catch_unwind(std::panic::AssertUnwindSafe(|| el.as_netflow_common())) {
+            Ok(Ok(c)) => dg.str(&format!("{:?}", c)),
+            Ok(Err(_)) => dg.str("common-err"),
+            Err(_) => dg.str("common-panic"),
+        }
+        sim.stats.oracle_evals += 1;
+    }
+    sim.last_outcome = dg.finish().to_le_bytes().to_vec();
+    // which runs are comparable across builds: those without any field the library does not know
+    for pk in &w.pkts {
+        if let MBody::V9 { sets, .. } | MBody::Ipfix { sets, .. } = &pk.body {
+            for s in sets {
+                match &s.kind {
+                    MSetKind::Tpls { tpls, .. } => {
+                        for (_, t) in tpls {
+                            let proto = if pk.version == 9 { Proto::V9 } else { Proto::Ipfix };
+                            if t.all_fields().iter().any(|f| f.ent.is_none() && (if proto == Proto::V9 { v9_dt(f.typ) } else { ipfix_dt(f.typ) }) == Dt::Unknown && !matches!(t, TDef::V9Opt { .. })) {
+                                sim.stats.probe("unknown_field_in_template");
+                            }
+                        }
+                    }
+                    MSetKind::Data { recs, .. } => {
+                        if !recs.is_empty() {
+                            sim.stats.nontrivial = true;
+                            sim.stats.probe_n("records_in_both_builds", recs.len() as u64);
+                        }
+                    }
+                    _ => {}
+                }
+            }
         }
     }
-    export::check(sim, "C17", d, &w, &r);
-    c13::check(sim, d, &w, &r, base);
+    if !w.conformant() {
+        // garbage may hold unknown field numbers the model did not see
+        sim.stats.probe("unknown_field_in_template");
+    }
     // (b) feature off: a record containing a field the library does not know is not reported
     if !UNKNOWN_FIELDS_ON && w.conformant() {
         if let Some(offs) = offsets(d.buf, &r) {
